@@ -513,7 +513,11 @@ func isRandomBytes(p *Prog, fn *ssa.Function) bool {
 	if fn.Signature.Recv() != nil || fn.Signature.Params().Len() != 1 || fn.Signature.Results().Len() != 1 {
 		return false
 	}
-	if types.TypeString(fn.Signature.Params().At(0).Type(), nil) != "int" || types.TypeString(fn.Signature.Results().At(0).Type(), nil) != "[]byte" {
+	// (an integer count, possibly of a named type, in; bytes out)
+	if bt, ok := fn.Signature.Params().At(0).Type().Underlying().(*types.Basic); !ok || bt.Info()&types.IsInteger == 0 {
+		return false
+	}
+	if types.TypeString(fn.Signature.Results().At(0).Type().Underlying(), nil) != "[]byte" {
 		return false
 	}
 	for _, b := range fn.Blocks {
